@@ -3,6 +3,7 @@ package props
 import (
 	"fmt"
 	"go/token"
+	"go/types"
 	"os"
 	"strings"
 
@@ -132,6 +133,8 @@ func runC11(c *Ctx) {
 	c.Rule("C11.O7", "E2,E4", "write queue: each entry released once — on flush's completion edge before the pop, or by teardown's loop followed by dropping the list; releaseToWrite closes the queued descriptor too", 3)
 	c.Rule("C11.O8", "E2-summaries", "views handed to BodyReader.append / websocket.Conn.Parse / processors' OnBody are only measured, copied or re-sliced", 3)
 	c.Rule("C11.O9", "E4", "a pooled buffer is never re-sliced from the front in place (*p = (*p)[k:]): its capacity would no longer be the one the allocator handed out, and a size-class allocator files it under the wrong class on Free", 1)
+	c.Rule("C11.O10", "E2", "a view taken from a pooled buffer or from a write-queue entry before it is released (a dereference, a re-slice, a field of the entry) is not used on any path after the release: callbacks and copies that need the bytes run before the buffer goes back to the pool", 40)
+	c11StaleViews(c)
 	c11NoFrontReslice(c, "C11.O9")
 
 	cfg := c.tsConfig()
@@ -465,4 +468,116 @@ func c11NoFrontReslice(c *Ctx, ob string) {
 		}
 	}
 	c.Cond(bad == "", ob, "no in-place front re-slice of pooled buffers", "", fmt.Sprintf("%d in-place re-slices, all from offset 0", n), bad)
+}
+
+// c11StaleViews: O10.  The typestate engine follows the pointer that is
+// released; this rule follows what was derived from it before: `buf :=
+// (*head.buf)[off:]` stays a valid Go slice after releaseToWrite(head), but
+// its bytes belong to the pool's next customer.
+func c11StaleViews(c *Ctx) {
+	cfg := c.tsConfig()
+	isMem := func(t types.Type) bool {
+		switch u := t.Underlying().(type) {
+		case *types.Slice, *types.Pointer:
+			return true
+		case *types.Basic:
+			return u.Kind() == types.String || u.Kind() == types.UnsafePointer
+		}
+		return false
+	}
+	n := 0
+	for _, f := range c.libFuncs() {
+		fi := c.P.Info(f)
+		k := 0
+		for _, cs := range c.P.Calls(f, nil) {
+			var arg ssa.Value
+			if a := cfg.FreeArg(cs); a != nil {
+				arg = a
+			} else if c.P.CalleeName(cs.Common) == "(*nbio.Conn).releaseToWrite" && len(cs.Common.Args) > 1 {
+				arg = cs.Common.Args[1]
+			}
+			if arg == nil {
+				continue
+			}
+			if _, isDefer := cs.In.(*ssa.Defer); isDefer {
+				continue
+			}
+			root := ir.Resolve(arg)
+			n++
+			k++
+			key := c.siteKey(f, "release", k)
+			// views: closure of the root under dereference, re-slice, field/index address, load, phi
+			views := map[ssa.Value]bool{root: true}
+			work := []ssa.Value{root}
+			for len(work) > 0 {
+				v := work[len(work)-1]
+				work = work[:len(work)-1]
+				refs := v.Referrers()
+				if refs == nil {
+					continue
+				}
+				for _, r := range *refs {
+					var d ssa.Value
+					switch x := r.(type) {
+					case *ssa.UnOp:
+						if x.Op == token.MUL && x.X == v {
+							d = x
+						}
+					case *ssa.Slice:
+						if x.X == v {
+							d = x
+						}
+					case *ssa.FieldAddr:
+						d = x
+					case *ssa.IndexAddr:
+						if x.X == v {
+							d = x
+						}
+					case *ssa.ChangeType:
+						d = x
+					case *ssa.Phi:
+						d = x
+					}
+					if d != nil && !views[d] && isMem(d.Type()) {
+						views[d] = true
+						work = append(work, d)
+					}
+				}
+			}
+			var def ssa.Instruction
+			if di, ok := root.(ssa.Instruction); ok {
+				def = di
+			}
+			vis, _ := fi.Reach([]ssa.Instruction{cs.In}, func(in ssa.Instruction) bool { return def != nil && in == def })
+			bad := ""
+			for in := range vis {
+				if in == cs.In || in == def {
+					continue
+				}
+				if _, isDbg := in.(*ssa.DebugRef); isDbg {
+					continue
+				}
+				if v, ok := in.(ssa.Value); ok && views[v] {
+					// the derivation itself; its use is what counts
+					if _, isPhi := in.(*ssa.Phi); isPhi {
+						continue
+					}
+				}
+				for _, op := range in.Operands(nil) {
+					if *op == nil || !views[*op] {
+						continue
+					}
+					if bad == "" || c.Pos(in) < bad {
+						bad = c.Pos(in)
+					}
+				}
+			}
+			detail := ""
+			if bad != "" {
+				detail = "a view of the buffer released at " + c.Pos(cs.In) + " (taken from " + c.P.Desc(root) + " before) is still used at " + bad + ": by then the pool may have handed the bytes to another owner"
+			}
+			c.Cond(bad == "", "C11.O10", key, c.Pos(cs.In), "no view of the released object is used afterwards", detail)
+		}
+	}
+	_ = n
 }
